@@ -166,6 +166,23 @@ def gen_zone(rng):
                     idx=[(j + 1) % 5 for j in range(k)], types=xt,
                     isstd=[], isgmt=[], leaps=[], version=2)
     if rng.random() < 0.04:
+        # an abbreviation table longer than 127 octets: abbreviation indices
+        # are unsigned octets (0..255)
+        ntypes = rng.choice([30, 40, 50, 60])
+        t0 = -1200000000 + rng.randrange(0, 86400 * 300)
+        base = _off(rng, -11 * 3600, -3 * 3600)
+        ltypes = [[base + 900 * (i % 9), i % 4 == 3, "A%02d" % i]
+                  for i in range(ntypes)]
+        order = list(range(1, ntypes))
+        rng.shuffle(order)
+        order = order[:45]
+        if ntypes - 1 not in order:
+            order[-1] = ntypes - 1
+        return dict(kind="synthetic", mode="long_abbr_table",
+                    trans=[t0 + 30 * 86400 * k for k in range(len(order))],
+                    idx=order, types=ltypes, isstd=[], isgmt=[], leaps=[],
+                    version=rng.choice([1, 2]))
+    if rng.random() < 0.04:
         # the format's own limits: up to 256 local time types, type indices
         # that do not fit a signed byte; every transition switches to the
         # next type, half an hour apart in offset, a week apart in time
